@@ -53,6 +53,18 @@ example : (turns unlimited ⟨7, [], false⟩ [[[97], [98]], [[99, 10, 10]], [],
     = [(11, [97, 98, 99, 10]), (12, [10]), (14, [100, 10])] := by
   rw [worker_turns_lines]; decide
 
+/-- **read sizes and turn boundaries are irrelevant** (no limit): two histories that read the same
+    bytes — split into reads and into turns in any two ways — make exactly the same `In` calls
+    (same lines, same offsets, same order). -/
+theorem worker_chunking_irrelevant (base : Nat) (t1 t2 : List (List Bytes))
+    (h : t1.flatten.flatten = t2.flatten.flatten) :
+    (turns unlimited ⟨base, [], false⟩ t1).2 = (turns unlimited ⟨base, [], false⟩ t2).2 := by
+  rw [worker_turns_lines, worker_turns_lines, h]
+
+example : (turns unlimited ⟨7, [], false⟩ [[[97], [98]], [[99, 10, 10]], [], [[100], [10, 101]]]).2
+    = (turns unlimited ⟨7, [], false⟩ [[[97, 98, 99, 10, 10, 100, 10, 101]]]).2 :=
+  worker_chunking_irrelevant _ _ _ (by decide)
+
 /-- **tail and offset**: after any turns `curOffset` has advanced by exactly the bytes read (every
     configuration), and the unterminated remainder is held back in `job.tail` — exactly
     `specTail content` with no limit, and with a limit whenever that remainder fits it. -/
